@@ -288,7 +288,7 @@ impl Property for C05 {
     fn cases(&self, tier: Tier) -> u32 {
         match tier {
             Tier::Quick => 40_000,
-            Tier::Thorough => 120_000,
+            Tier::Thorough => 1_000_000,
         }
     }
 
